@@ -56,7 +56,7 @@ fn protocol_for(prog: &Program, i: usize) -> u8 {
     }
 }
 
-fn make_op(name: &'static str, m: &Machine) -> Option<Op> {
+pub fn make_op(name: &'static str, m: &Machine) -> Option<Op> {
     let info = lexer::by_name(name)?;
     let arg = match name {
         "BINPUT" => Arg::Int(m.memo.len() as i128),
@@ -330,14 +330,44 @@ pub fn steer_tokens(p: u8, tokens: &[String]) -> Option<Vec<u8>> {
     for t in tokens {
         let (names, k) = parse_token(t)?;
         let codes: Vec<u8> = names.iter().filter_map(|n| lexer::by_name(n).map(|i| i.code)).collect();
-        let first = steer_unit(&mut script, &mut done, &names)?;
-        if k >= 2 {
-            let second = steer_unit(&mut script, &mut done, &names)?;
-            let _ = first;
-            for _ in 2..k {
-                script.extend_from_slice(&second);
+        let mut unit = steer_unit(&mut script, &mut done, &names)?;
+        let mut remaining = k - 1;
+        if remaining >= 1 {
+            unit = steer_unit(&mut script, &mut done, &names)?;
+            remaining -= 1;
+        }
+        // replicate the steady-state unit in doubling chunks, each verified by one run; where the
+        // generator's menu changes on the way (a threshold such as 256 memo entries switches an
+        // opcode off), the divergence is located, the script is cut back to the last good
+        // repetition and a fresh unit is steered from there
+        let mut chunk = 64usize;
+        let mut resteers = 0;
+        while remaining > 0 {
+            let c = chunk.min(remaining);
+            let (s0, d0) = (script.len(), done.len());
+            for _ in 0..c {
+                script.extend_from_slice(&unit);
                 done.extend_from_slice(&codes);
             }
+            let (_sc, _recs, ops, _consumed) = engine::tree_probe(p, &script, done.len());
+            let good_ops = ops.iter().zip(done.iter()).take_while(|(a, b)| a == b).count();
+            if good_ops >= done.len() && ops.len() == done.len() {
+                remaining -= c;
+                chunk = (chunk * 2).min(1 << 16);
+                continue;
+            }
+            // divergence inside this chunk
+            let g = good_ops.saturating_sub(d0) / codes.len();
+            script.truncate(s0 + g * unit.len());
+            done.truncate(d0 + g * codes.len());
+            remaining -= g;
+            resteers += 1;
+            if resteers > 12 || remaining == 0 {
+                return None;
+            }
+            unit = steer_unit(&mut script, &mut done, &names)?;
+            remaining -= 1;
+            chunk = 64;
         }
     }
     // verification run
